@@ -315,6 +315,7 @@ pub enum Stat {
     LiveSlowSnapRuns,
     AppliedUnpersisted,
     ApiProbes,
+    GroupCommitChecked,
     _N,
 }
 pub const NSTAT: usize = Stat::_N as usize;
@@ -359,6 +360,7 @@ pub const STAT_NAMES: [&str; NSTAT] = [
     "live_slow_snapshot_suffix_runs",
     "entries_handed_out_before_persisted",
     "api_probes_on_clones",
+    "group_commits_checked_against_two_groups",
 ];
 
 pub struct Ctx {
